@@ -104,6 +104,40 @@ func build(r *rand.Rand, n int) (*scenario, error) {
 		keep = append(keep, twin(op))
 		sc.plan[name] = "edited"
 	}
+	// a function rewritten from scratch under its old name (other callees, two more loops,
+	// other branching): however little the two bodies share, the name pairs them
+	rwOld := gen.Func{Name: "Rw0", Sig: gen.SigII, Tags: []string{"rewritten-same-name"}, Text: `func Rw0(a int, b int) (res int) {
+	res = h1(a, b)
+	if res > 3 {
+		res = h2(res, a)
+	}
+	return res
+}
+`}
+	rwNew := gen.Func{Name: "Rw0", Sig: gen.SigII, Tags: []string{"rewritten-same-name"}, Text: `func Rw0(a int, b int) (res int) {
+	s := hs1(rep("x", a))
+	for i := 0; i < len(s); i++ {
+		for j := 0; j < b&3; j++ {
+			tick()
+			res += len(hs2(s)) + fact(j)
+		}
+	}
+	for k := 0; k < a&3; k++ {
+		switch {
+		case isEven(k):
+			res -= trace(k)
+		case k > 2:
+			res++
+		default:
+			res += len(s)
+		}
+	}
+	return res
+}
+`}
+	base.Funcs = append(base.Funcs, rwOld)
+	keep = append(keep, rwNew)
+	sc.plan["Rw0"] = "edited"
 	// a function that is renamed AND escalated (a goroutine, a further loop) in the same
 	// revision: paired by shape, listed with its risk score - which the summary must count
 	esc := func(name string, extra string) gen.Func {
